@@ -153,6 +153,7 @@ func vfC17(w *vfWorld) {
 		prefix := vfPick(t, "c17.prefix", []string{"/", "/api/", "/api/v2/", "/apix/", "/based/", "/rw/", "/rw/deep/", "/other/", "/exact", "/swap/", "/static-ok", "/api", "/exactx", "/art/",
 			// an encoded slash or letter right at a prefix boundary: which upstream owns the path depends on whether
 			// routing looks at the encoded or the decoded path (raw-path proxying)
+			"/%70ing", "/pin%67", "/%72eady", // decode to the ping / ready paths of the pre-auth chain but ARE not those paths
 			"/api%2F", "/api%2Fv2/", "/api/v2%2F", "/apix%2F", "/based%2F", "/%61pi/", "/api/%762/", "/exact%2F", "/rw%2F", "/rw/deep%2F"})
 		path := prefix
 		if strings.HasSuffix(prefix, "/") || strings.HasSuffix(prefix, "%2F") {
@@ -251,7 +252,7 @@ func vfC17(w *vfWorld) {
 		if t.Bool("c17.rh3") {
 			rhdrs = append(rhdrs, [2]string{"Www-Authenticate", "Basic realm=\"up\""}, [2]string{"Etag", "\"v1\""})
 		}
-		reply = &vfUpReply{Status: rstatus, Headers: rhdrs, Body: rbody, Fault: map[string]string{"reset": "reset", "hang": "hang"}[fault]}
+		reply = &vfUpReply{Status: rstatus, Headers: rhdrs, Body: rbody, Fault: map[string]string{"reset": "reset", "hang": "hang"}[fault], Early: t.Prob("c17.early-hints", 120)}
 		rule, judged := route(path)
 		if !judged {
 			w.probe("c17:raw-path-routing-of-invalid-encoding-not-judged")
